@@ -3,6 +3,7 @@
 //    loop or unbounded memory growth. The work done is bounded by a constant factor times the
 //    number of tokens."
 //
+// Place this file in crates/oq3_syntax/tests/hunt_demo.rs.
 // Each test asserts what the property requires and therefore FAILS on the current code.
 // Only the public API of oq3_syntax is used.
 //
